@@ -791,7 +791,7 @@ def _write_scope_layers(
     if not layers:
         preserved_before = list(expr.before)
         preserved_after = list(expr.after)
-        expr.scope = Scope()
+        expr.scope = Scope(owner=expr)
         expr.scope_state = ScopeState()
         if restored_layer is not None:  # pragma: no cover - defensive restoration path
             restored_before = list(restored_layer.get("body_before", ()))
@@ -818,6 +818,10 @@ def _write_scope_layers(
     outer = layers[0]
     outer_scope = outer["scope"]
     expr.scope = outer_scope if isinstance(outer_scope, Scope) else Scope(outer_scope)
+    # The layer that is outermost now belongs to the expression (an inner layer
+    # is kept as a plain list): edits through the scope mapping find the
+    # recorded order only through the owner.
+    expr.scope.owner = expr
     expr.scope_state = ScopeState(
         body_before=list(outer["body_before"]),
         body_after=list(outer["body_after"]),
